@@ -1,4 +1,5 @@
 // C15 - no operation history leaks, double-frees or touches memory it does not own
+#define HARNESS_MAIN_THREAD_CASES 1  // this harness owns its threads and per-thread baselines
 #include "common/lib.h"
 #include "common/ledger.h"
 #include <SQuIDS/SQuIDS.h>
